@@ -370,6 +370,41 @@ func genProgram(t *rapid.T, fields map[string]any) ([]*gen.Node, *sgen.G) {
 		}
 		cy := gen.NIdent("cy")
 		var use *gen.Node
+		if rapid.IntRange(0, 3).Draw(g.T, "twin") == 0 {
+			// a second, separately built value of the same shape, compared with the first
+			g.Feat["self-containing-twins-compared"] = true
+			n0 := len(mk)
+			for _, st := range mk[:n0] {
+				tw := st.Clone()
+				gen.WalkAll([]*gen.Node{tw}, func(x *gen.Node) {
+					if x.Kind == gen.Ident {
+						switch x.Name {
+						case "cy":
+							x.Name = "cz"
+						case "pp":
+							x.Name = "pz"
+						case "other":
+							x.Name = "otherz"
+						}
+					}
+				})
+				mk = append(mk, tw)
+			}
+			cz := gen.NIdent("cz")
+			switch rapid.IntRange(0, 4).Draw(g.T, "twinuse") {
+			case 0:
+				use = gen.NSet("eq", gen.NBin("==", cy, cz))
+			case 1:
+				use = gen.NSet("eq", gen.NBin("!=", cy, cz))
+			case 2:
+				use = gen.NSet("eq", gen.NBin("in", cy, gen.NList(gen.NInt(1), cz)))
+			case 3:
+				use = gen.NIf([]*gen.Node{gen.NBin("==", gen.NList(cy), gen.NList(cz))}, [][]*gen.Node{{gen.NSet("eq", gen.NInt(1))}}, nil, false)
+			default:
+				use = gen.NSet("eq", gen.NBin("in", cz, cy))
+			}
+			return gen.NIf([]*gen.Node{gen.NBool(true)}, [][]*gen.Node{append(mk, use)}, nil, false)
+		}
 		switch rapid.IntRange(0, 9).Draw(g.T, "cycuse") {
 		case 0:
 			use = gen.NCall("strfmt", gen.NIdent("out"), gen.NStr("%v"), cy)
